@@ -868,7 +868,14 @@ func (e *Engine) evalCall(env *Env, n *ast.CallExpr) (Val, types.Type) {
 			e.specErr("athead used outside a backedge clause")
 			return Sc{"0"}, tInt
 		}
-		return e.eval(env.headEnv, n.Args[0])
+		he := env.headEnv
+		if len(env.bound) > 0 {
+			// quantified variables of the enclosing clause stay visible
+			for name := range env.bound {
+				he = he.with(name, env.vars[name])
+			}
+		}
+		return e.eval(he, n.Args[0])
 	case "at": // at(L, e): value of e in the state captured by the call-site clause `label L`
 		if !need(2) {
 			return Sc{"0"}, tInt
@@ -940,6 +947,11 @@ func (e *Engine) evalCall(env *Env, n *ast.CallExpr) (Val, types.Type) {
 		bv := q(fmt.Sprintf("%s?%d", id.Name, e.n))
 		inner := env.with(id.Name, TV{Sc{bv}, tInt})
 		inner.cells = nil
+		nb := map[string]bool{id.Name: true}
+		for k := range env.bound {
+			nb[k] = true
+		}
+		inner.bound = nb
 		var body string
 		if len(n.Args) == 4 {
 			lo, hi := e.evalInt(env, n.Args[1]), e.evalInt(env, n.Args[2])
